@@ -319,6 +319,29 @@ def oracle_distribution(P, ns, entries, tol_extra=0.0):
     return None
 
 
+def oracle_structure(P, ns, entries, normalised):
+    """The clauses of the property that hold at EVERY trimming threshold (theorems `tags_fresh`,
+    `generate_normalised`): evaluated on the real output when an explicit threshold makes the probability
+    laws inexact.  -> None or (signature, text)."""
+    perfect, pd = classify(P)
+    if any(p < 0 for _, p in entries):
+        return ("negative-probability", "a state has negative probability")
+    if normalised and entries and not core.close(sum(p for _, p in entries), 1.0):
+        return ("mass-not-one", f"the generated distribution has total probability {sum(p for _, p in entries)!r}")
+    for modes, p in entries:
+        if len(modes) != len(ns):
+            return ("mode-count", f"a generated state has {len(modes)} modes for {len(ns)} requested")
+        flat = [t for tags in modes for t in tags]
+        others = [t for t in flat if t not in (None, 0)]
+        if len(set(others)) != len(others) and p > 1e-12:
+            return ("tags-not-fresh", f"two photons share the non-signal tag in {modes}")
+        if pd and not perfect and any(t is None for t in flat) and p > 1e-12:
+            return ("unannotated-photon", f"an unannotated photon in a partially distinguishable mixture: {modes}")
+        if any(len(tags) > 2 * n for tags, n in zip(modes, ns)):
+            return ("too-many-photons", f"more than two photons per requested photon in {modes}")
+    return None
+
+
 # ------------------------------------------------------------------------------------------------
 # goodness of fit (a TEST)
 # ------------------------------------------------------------------------------------------------
@@ -424,9 +447,10 @@ def judge_gen(chk, case):
         if worst is not None:
             fail = f"state {worst[0]}: code {worst[1]!r}, model {worst[2]!r}"
     # the property statement on the real output (only meaningful when nothing substantial is trimmed)
-    orc = None
     if thr is None or thr <= 1e-16:
         orc = oracle_distribution(P, ns, entries)
+    else:
+        orc = oracle_structure(P, ns, entries, normalised=True)
     if orc is not None:
         return ("violation", orc[0], orc[1], case)
     if fail is not None:
@@ -461,10 +485,11 @@ def judge_pd(chk, case):
             fail = f"state {worst[0]}: code {worst[1]!r}, model {worst[2]!r}"
         elif rep["t"] != t_after:
             fail = f"tag counter after the call: code {t_after}, model {rep['t']}"
-    orc = None
     if thr is None or thr <= 1e-16:
         # probability_distribution itself does not normalise; with threshold 0 the mass must already be 1
         orc = oracle_distribution(P, [n], entries)
+    else:
+        orc = oracle_structure(P, [n], entries, normalised=False)
     if orc is not None:
         return ("violation", orc[0], "probability_distribution: " + orc[1], case)
     if fail is not None:
@@ -713,6 +738,8 @@ class HistBook:
         elif op == "input":
             if self.ns is not None:
                 self.shapes.add("hist-input-change")
+                if st["ns"] != self.ns and sum(st["ns"]) == sum(self.ns) and self.cached:
+                    self.shapes.add("hist-input-change-same-photon-number")
             self.ns = st["ns"]
             self.cached = True
         elif op == "read":
@@ -850,24 +877,24 @@ def judge_hist(chk, case):
                 return ("violation", "no-distribution",
                         f"{where}: source_distribution is None although an input was given", case)
             entries = svd_entries(svd)
-            if thr is None or thr <= 1e-16:
-                orc = oracle_distribution(Pcur, ns_req, entries)
-                if orc is not None:
-                    sg, txt = orc
-                    try:
-                        fresh_ok = oracle_distribution(Pcur, ns_req, fresh_processor_entries(Pcur, ns_req)) is None
-                    except Exception:  # noqa
-                        fresh_ok = False
-                    what = ("Processor.source_distribution" if op == "read" else
-                            "Processor.source.generate_distribution")
-                    if fresh_ok:
-                        sg = "history-dependent-source-distribution"
-                        txt = (f"after the history, at {where}, {what} for noise {noise_kwargs(Pcur)} and input "
-                               f"{ns_req} does not have the statistics these parameters promise ({txt}), whereas a "
-                               f"new Processor with the same parameters and input does")
-                    else:
-                        txt = f"{where}: {what}: {txt}"
-                    return ("violation", sg, txt, case)
+            orc = oracle_distribution(Pcur, ns_req, entries) if thr is None or thr <= 1e-16 else \
+                oracle_structure(Pcur, ns_req, entries, normalised=True)
+            if orc is not None:
+                sg, txt = orc
+                try:
+                    fresh_ok = oracle_distribution(Pcur, ns_req, fresh_processor_entries(Pcur, ns_req)) is None
+                except Exception:  # noqa
+                    fresh_ok = False
+                what = ("Processor.source_distribution" if op == "read" else
+                        "Processor.source.generate_distribution")
+                if fresh_ok:
+                    sg = "history-dependent-source-distribution"
+                    txt = (f"after the history, at {where}, {what} for noise {noise_kwargs(Pcur)} and input "
+                           f"{ns_req} does not have the statistics these parameters promise ({txt}), whereas a "
+                           f"new Processor with the same parameters and input does")
+                else:
+                    txt = f"{where}: {what}: {txt}"
+                return ("violation", sg, txt, case)
             if fail is None and "dist" not in outs[i]:
                 fail = f"{where}: the model returns no distribution"
             elif fail is None and not outs[i]["near"]:
@@ -963,7 +990,7 @@ def gen_hist(rng, pick_params):
         if rng.random() < 0.5:
             emit({"op": "read"})
     for _ in range(rng.randint(1, 4)):
-        move = rng.choice(["sweep", "sweep", "sweep", "other", "equal", "equal", "same", "none", "input", "source",
+        move = rng.choice(["sweep", "sweep", "sweep", "other", "equal", "equal", "same", "none", "input", "input", "source",
                            "filter", "read"])
         if move == "sweep":
             if book.held == book.none_id:
@@ -998,7 +1025,20 @@ def gen_hist(rng, pick_params):
         elif move == "none":
             emit({"op": "assign", "id": None, "route": route()})
         elif move == "input":
-            emit({"op": "input", "ns": rand_ns()})
+            ns = rand_ns()
+            if book.ns is not None and m > 1 and sum(book.ns) > 0 and rng.random() < 0.6:
+                # another arrangement of the same number of photons (a summary of the input is unchanged)
+                for _ in range(20):
+                    cand = list(book.ns)
+                    i, j = rng.sample(range(m), 2)
+                    if cand[i] > 0 and cand[j] < 2:
+                        cand[i] -= 1
+                        cand[j] += 1
+                        ns = cand
+                        break
+            emit({"op": "input", "ns": ns})
+            if rng.random() < 0.7:
+                emit({"op": "read"})
         elif move == "source":
             emit({"op": "source", "ns": rand_ns(), "thr": rng.choice([None, None, "1/1000"])})
         elif move == "filter":
@@ -1230,6 +1270,7 @@ def run(chk: core.Check):
                              "hist-inplace-reassign-cached", "hist-inplace-reassign-uncached",
                              "hist-same-object-reassign-clean", "hist-equal-new-object", "hist-other-object",
                              "hist-set-unheld", "hist-noise-none", "hist-experiment-route", "hist-input-change",
+                             "hist-input-change-same-photon-number",
                              "hist-read-cached", "hist-read-regenerates", "hist-read-source",
                              "hist-dirty-read-unjudged", "hist-only-beta-changes", "hist-only-q-changes",
                              "hist-only-eta-changes", "hist-only-r-changes", "hist-only-model-changes"]
